@@ -123,6 +123,11 @@ func runC11(c *Config, r *Report) {
 	c11R13(ic, r)
 }
 
+// r114Exceptions: callers of a compile pass outside the pipeline that are accepted, one per line with the reason.
+var r114Exceptions = map[string]string{
+	"genRun <- (*Debugger).SetBreakpoints": "closure generation only (fills node.exec from the control-flow entry points, idempotent, first step of Execute); needed to find the executed node of a line without generating from arbitrary nodes",
+}
+
 func c11R2(ic *IC, r *Report) {
 	fn := ic.ssaMeth("Interpreter", "resizeFrame")
 	if fn == nil {
@@ -360,6 +365,14 @@ func c11R4(ic *IC, r *Report) {
 			}
 			if token.IsExported(nm) && !allowed[cl] {
 				exported = true
+			}
+			// one named exception: the debugger generates the exec closures before looking for the
+			// executed node of a line (D94). genRun compiles nothing: it only fills node.exec, from the
+			// entry points of the control flow graphs, is idempotent, and is the first step of
+			// Execute - calling it earlier does not give this entry point a pass sequence of its own.
+			if reason, ok := r114Exceptions[p+" <- "+cl]; ok && exported {
+				r.Pass("R11.4", "pass/"+p+"/called-by:"+cl, ic.pos(callers[p][cl]), "named exception: "+reason)
+				continue
 			}
 			r.Check(!exported, "R11.4", "pass/"+p+"/called-by:"+cl, ic.pos(callers[p][cl]), "called from the pipeline or one of its helpers", "compile pass "+p+" is called directly from the exported entry point "+cl+", outside CompileAST/importSrc/Execute: this entry point compiles through a different sequence of passes")
 		}
